@@ -317,6 +317,13 @@ def program(draw, profile=None):
                     # the same original listed by a second frame of the owner (ownership guard must arbitrate)
                     g = draw(st.sampled_from([x for x in fr["frames"] if x is not f]))
                     g["acts"].insert(draw(st.integers(0, len(g["acts"]))), {"kind": "aux", "name": aname, "needs": []})
+                if prof.get("aux_dual") and info["mode"] == "plain" and len(fr["frames"]) > 1 and draw(st.integers(0, 2)) == 0:
+                    # the same original also used as a CONDITIONAL aux by another frame of the owner: while it runs as
+                    # the plain aux of one frame it is not the other frame's to run
+                    g = draw(st.sampled_from([x for x in fr["frames"] if x is not f]))
+                    if not any(a["kind"] == "aux" and a["name"] == aname for a in g["acts"]):
+                        g["acts"].insert(draw(st.integers(0, len(g["acts"]))),
+                                         {"kind": "aux", "name": aname, "needs": draw(needs(env, 1, 2))})
                 if prof.get("aux_nest") and info["mode"] == "plain" and draw(st.integers(0, 2)) == 0:
                     # the same original also listed by a frame of an EARLIER auxiliary framer (no cycles): it can then be
                     # reached through two nesting levels of one outline
